@@ -331,6 +331,12 @@ func replayConsole(b conBeh, seed int64) (finds []Finding) {
 				f.AddTo(enc)
 			}
 		}
+		if seed%2 == 0 {
+			// history: an earlier entry without call-site fields through the same encoder
+			if b0, err := enc.EncodeEntry(ent, nil); err == nil {
+				b0.Free()
+			}
+		}
 		buf, err := enc.EncodeEntry(ent, fields)
 		if err != nil {
 			add("C16/error", "EncodeEntry returned %v", err)
